@@ -35,8 +35,10 @@ def main():
             {"name": "E2 alias/effect analysis", "path": "sigverif/effects.py", "serves_properties": ["C02", "C12", "C13", "C15"], "kind_free_text": "flow-sensitive may-alias + mutation summaries to a fixpoint over the call graph"},
             {"name": "E3 term algebra + value numbering", "path": "sigverif/terms.py, sigverif/vn.py", "serves_properties": ["C01", "C05", "C06", "C07", "C08", "C09", "C11", "C12", "C13", "C14", "C17", "C19", "C20"], "kind_free_text": "canonical polynomial normal form with conj/rational exponents; path-sensitive global value numbering"},
             {"name": "E4 operator descriptors", "path": "sigverif/linopdesc.py", "serves_properties": ["C01", "C03", "C04", "C10", "C16"], "kind_free_text": "ctor -> attribute -> primitive-argument flow and shape summaries per Linop class"},
-            {"name": "E5 axis tags", "path": "sigverif/axistag.py", "serves_properties": ["C03", "C07", "C09", "C17"], "kind_free_text": "which-dimension-does-this-integer-index type inference"},
+            {"name": "E5 axis tags / raw-axes typestate / kernel loop-nest summaries", "path": "sigverif/axestate.py, sigverif/kernelsum.py", "serves_properties": ["C01", "C03", "C07", "C09", "C17"], "kind_free_text": "interprocedural taint of un-normalised axes; which-dimension-does-this-integer-index inference; canonical loop-nest summaries of the numba kernels"},
             {"name": "E6 path enumeration", "path": "sigverif/paths.py", "serves_properties": ["C03", "C11", "C14", "C15", "C18"], "kind_free_text": "statement-level path enumeration: must-pass-through, dominance, pairing"},
+            {"name": "abstract domains", "path": "sigverif/domains.py, sigverif/linearity.py, sigverif/zerodiff.py", "serves_properties": ["C02", "C11", "C15", "C18", "C20"], "kind_free_text": "C-linearity lattice {Z,K,L,A,N}; shape provenance; binary-valued arrays; endpoint-zero; must-alias stale-snapshot analysis"},
+            {"name": "bytecode cross-check", "path": "sigverif/bytecode.py", "serves_properties": ["C02", "C12", "C13", "C15"], "kind_free_text": "thorough tier: dis-derived store counts per code object (compiled, never executed) must agree with the AST-derived mutation sites"},
         ],
         "checks": checks,
         "not_applicable": [{"property_id": p, "reason": r} for p, r in sorted(NOT_APPLICABLE.items()) if p not in CLAIMS],
